@@ -62,6 +62,19 @@ Theorem center_height_ok :
 Proof. exact center_height_ok_fact. Qed.
 Print Assumptions center_height_ok.
 
+(* ---- the UI frame: for EVERY UI state (not only reachable ones), all six modes, with or without
+   a status line, and every height >= 2: if the frame is computed at all it has exactly
+   u_height lines (that it IS computed in every reachable state is view_no_panic in C07) ---- *)
+From Servitor Require Import Style History Feed Ui.
+From Servitor.Facts Require Import UiFacts.
+Theorem view_height :
+  forall (I C : Type) (preload : Z) (col : colors) (full_text preview_text : I -> Z -> text)
+  (s : ui I C) (t : text),
+  2 <= u_height I C s ->
+  view I C preload col full_text preview_text s = Ok t -> height t = u_height I C s.
+Proof. exact view_height_fact. Qed.
+Print Assumptions view_height.
+
 (* Non-vacuity, and the geometry the pinned tree got wrong: exactly one spare row *)
 Example c16_example : height (center_vertically [97;10;98] [99] [100] 2)%N = 2.
 Proof. vm_compute. reflexivity. Qed.
